@@ -38,7 +38,7 @@ func (c11) Cases(tier string) int {
 	if tier == "thorough" {
 		return 1500000
 	}
-	return 40000
+	return 100000
 }
 func (c11) RaceCases(tier string) int {
 	if tier == "thorough" {
